@@ -1618,8 +1618,9 @@ def ast_tie(chk):
         # source expression on generic requests (distinct entries, rank[n] = rank[0] as validate_tr_rank guarantees, every order 2-6 and every
         # start mode >= 1): a slicing / concatenation expression that agrees with the model there is a semantics-preserving rewrite
         GENERIC["tr_rank_rotation"] = f"forall (n_dim mode : nat) (rank : list nat), {rot} = tr_rotate_rank n_dim mode rank"
+        # (only the first n_dim entries are ever read, by the code - rank[0], rank[1], rank[k + 1] for k <= n_dim - 2 - and by the model)
         return [("tr_rank_rotation", "forallb (fun n_dim => forallb (fun mode => if list_eq_dec Nat.eq_dec "
-                 f"((fun (n_dim mode : nat) (rank : list nat) => {rot}) n_dim mode (seq 1 n_dim ++ [1])) (tr_rotate_rank n_dim mode (seq 1 n_dim ++ [1])) "
+                 f"(firstn n_dim ((fun (n_dim mode : nat) (rank : list nat) => {rot}) n_dim mode (seq 1 n_dim ++ [1]))) (firstn n_dim (tr_rotate_rank n_dim mode (seq 1 n_dim ++ [1]))) "
                  "then true else false) (seq 1 (n_dim - 1))) (seq 2 5) = true", "vm_compute; reflexivity"),
                 ("tr_mode_order", f"forall (n_dim mode : nat), mode <= n_dim -> {order} = rotate mode (seq 0 n_dim)", "intros; symmetry; now apply rotate_seq"),
                 ("tr_factor_reorder", f"forall (fs : list (tensor Q)) (mode : nat), {reorder} = lastn mode fs ++ firstn (length fs - mode) fs", "intros; reflexivity"),
